@@ -114,10 +114,50 @@ class UnitResult:
     pass
 
 
+MISSING_PATS = [re.compile(r"no method named `(\w+)` found"), re.compile(r"no function or associated item named `(\w+)` found"),
+                re.compile(r"cannot find function `(\w+)`"), re.compile(r"no associated function or constant named `(\w+)` found")]
+
+
 def analyse_unit(unit, gen_dir, tier, canary=False):
+    """generate + run verus on one unit. If the front end only misses functions that exist in /repo (a helper an
+    extracted body calls, typically introduced by a change), they are auto-included without contract and the run
+    is repeated (at most 3 rounds)."""
+    extra = []
+    ur = None
+    for _round in range(4):
+        ur = _analyse_unit(unit, gen_dir, tier, canary, tuple(extra))
+        if not ur.frontend_errors or _round == 3:
+            break
+        names = set()
+        for fe in ur.frontend_errors:
+            for pat in MISSING_PATS:
+                names.update(pat.findall(fe))
+        added = False
+        files = sorted({f["file"] for f in ur.gen.functions})
+        for name in sorted(names):
+            if any(e[2] == name for e in extra):
+                continue
+            for rel in files:
+                try:
+                    src = extract.Source(rel)
+                    hit = src.find_helper(name)
+                except AnchorLost:
+                    hit = None
+                if hit:
+                    props = sorted({p for f in ur.gen.functions if f["file"] == rel for p in f["props"]})
+                    extra.append((rel, hit[0], name, props))
+                    added = True
+                    break
+        if not added:
+            break
+    ur.auto_included = [f"{e[0]}::{e[2]}" for e in extra]
+    return ur
+
+
+def _analyse_unit(unit, gen_dir, tier, canary=False, extra_fns=()):
     """generate + run verus on one unit; returns UnitResult"""
     tp = os.path.join(ROOT, "contracts", unit + ".vx")
-    g = extract.generate(unit, tp, canary=canary)
+    g = extract.generate(unit, tp, canary=canary, extra_fns=extra_fns)
     name = unit + ("_canary" if canary else "")
     path = os.path.join(gen_dir, name + ".rs")
     text = "\n".join(g.lines)
@@ -403,7 +443,7 @@ def main(argv):
             canaries.append({"unit": unit, "target": l["name"], "canary": "assert(false) at body entry must fail", "failed_as_required": ok})
             if not ok:
                 undecided.append(f"vacuous unit={unit}: `assert(false)` at entry verifies for lemma {l['name']}")
-        unit_reports.append({"unit": unit, "verified": ur.vr.get("verified"), "errors": ur.vr.get("errors"), "verus_wall_s": round(ur.run["wall"], 2),
+        unit_reports.append({"unit": unit, "auto_included_helpers": getattr(ur, "auto_included", []), "verified": ur.vr.get("verified"), "errors": ur.vr.get("errors"), "verus_wall_s": round(ur.run["wall"], 2),
                              "canary_verified": cr.vr.get("verified"), "canary_errors": cr.vr.get("errors")})
 
     # ---- extra engines (Kani) ----
